@@ -1,3 +1,2 @@
 #!/bin/bash
-# regenerate + build the shuttle mirror (dev helper)
-python3 /verif/engines/mirror/mirror.py shuttle ${VX_REPO:-/repo} /tmp/vx-mirror-shuttle-0 >/dev/null && cd /tmp/vx-mirror-shuttle-0 && CARGO_TARGET_DIR=/verif/target/shutx cargo build --release 2>&1 | grep -E '^error' -A12 | head -60
+python3 /verif/tools/vxbuild.py shuttle 2>&1 | grep -E "^error|BUILD FAILED" -A12 | head -60
